@@ -70,7 +70,9 @@ func fixBlock(from uintptr, block []byte, trampoline uintptr,
 			if l := copy(copyBlock, block); l != len(block) {
 				return nil, 0, errors.New("copy block array error")
 			}
-			fixedInsData := fixIns(ins, pos, copyBlock, blockSize, (uint64)(from), trampoline)
+			// 前面的短跳转指令被扩展成长跳转之后, 本条指令在 trampoline 中的位置会后移, 需要计入偏移
+			growth := uintptr(len(fixedBlock) - pos)
+			fixedInsData := fixIns(ins, pos, copyBlock, blockSize, (uint64)(from), trampoline+growth)
 			fixedBlock = append(fixedBlock, fixedInsData...)
 
 			logger.Debugf("[%d]>[%d] 0x%x:\t%s\t\t%s\t\t%s", ins.Len, len(fixedInsData),
